@@ -65,14 +65,14 @@ func (m *Mocker) Mock(w io.Writer, namePairs ...string) error {
 		}
 
 		typeParams := m.typeParams(tparams)
-		typeParamNames := make([]string, len(typeParams))
+		typeParamVars := make([]*registry.Var, len(typeParams))
 		for j, tp := range typeParams {
-			typeParamNames[j] = tp.Name()
+			typeParamVars[j] = tp.Var
 		}
 
 		methods := make([]template.MethodData, iface.NumMethods())
 		for j := 0; j < iface.NumMethods(); j++ {
-			methods[j] = m.methodData(iface.Method(j), typeParamNames)
+			methods[j] = m.methodData(iface.Method(j), typeParamVars)
 		}
 
 		mocks[i] = template.MockData{
@@ -160,10 +160,10 @@ func explicitConstraintType(typeParam *types.Var) (t types.Type) {
 	return nil
 }
 
-func (m *Mocker) methodData(f *types.Func, typeParamNames []string) template.MethodData {
+func (m *Mocker) methodData(f *types.Func, typeParams []*registry.Var) template.MethodData {
 	sig := f.Type().(*types.Signature)
 
-	scope := m.registry.MethodScope(typeParamNames...)
+	scope := m.registry.MethodScope(typeParams...)
 	n := sig.Params().Len()
 	params := make([]template.ParamData, n)
 	for i := 0; i < n; i++ {
